@@ -214,6 +214,7 @@ def run_scenario(sc):
         obs['ledger'] = dict(S.ledger)
         obs['main_points'] = S.threads[0].points
         obs['points'] = {t.role: t.points for t in S.threads[:40]}
+        obs['roles_missing'] = list(getattr(S, 'roles_missing', []) or [])
         if sc.get('want_aproto'):
             try:
                 obs['aproto'] = extract_aproto(S.trace)
